@@ -191,6 +191,7 @@ func Consume[T any](env Env, name string, ch chan T, delays []int64, st *Stream[
 			h := env.Pre()
 			v, ok := <-ch
 			if ok {
+				touch(v) // read what was delivered now, as a real consumer would (lets the race detector see a producer that keeps writing to it)
 				st.add(v)
 			} else {
 				st.setClosed()
